@@ -999,10 +999,21 @@ def register(E):
     I['context.Background'] = ctx_background
     I['context.TODO'] = ctx_background
 
-    def ctx_with_cancel(E, args):
+    def ctx_expire(E, o):
+        """virtual time: a WithTimeout context is done once the logged timer waits add up to its timeout"""
+        dl = o.v[2] if len(o.v) > 2 else None
+        d = o.v[0]
+        if dl is not None and d is not None and not d.closed and E.vtime >= dl:
+            E.chan_touch(d)
+            d.closed = True
+
+    def ctx_with_cancel(E, args, timeout=None):
         parent = args[0]
         done = ChanObj(0, E.epoch)
-        o = E.new_obj([done, parent])
+        deadline = None
+        if timeout is not None and type(timeout) is int:
+            deadline = E.vtime + timeout
+        o = E.new_obj([done, parent, deadline])
         # a cancelled parent cancels the child
         if parent is not None and parent.v.v[0] is not None and parent.v.v[0].closed:
             done.closed = True
@@ -1021,11 +1032,12 @@ def register(E):
             return None
         return (Iface(CTX, o), cancel)
     I['context.WithCancel'] = ctx_with_cancel
-    I['context.WithTimeout'] = lambda E, a: ctx_with_cancel(E, a[:1])
+    I['context.WithTimeout'] = lambda E, a: ctx_with_cancel(E, a[:1], a[1])
     I['context.WithDeadline'] = lambda E, a: ctx_with_cancel(E, a[:1])
 
     def ctx_invoke(E, recv, method, args):
         o = recv.v
+        ctx_expire(E, o)
         if method == 'Done':
             return o.v[0]
         if method == 'Err':
@@ -1041,6 +1053,8 @@ def register(E):
     def time_after(E, args):
         """time.After(d): the timer is treated as having fired (the channel is ready); d is logged"""
         E.timer_log.append(args[0])
+        if type(args[0]) is int and args[0] > 0:
+            E.vtime += args[0]  # virtual time advances by the waits that are treated as elapsed
         ch = ChanObj(1, E.epoch)
         ch.items.append(E.zero('time.Time'))
         return ch
@@ -1078,6 +1092,14 @@ def register(E):
     def dial_context(E, args):
         if getattr(E, 'dial_hook', None) is None:
             raise Unsupported('net dial without a harness dialer')
+        ctx = args[1] if len(args) > 1 else None
+        if type(ctx) is Iface and ctx.t == CTX:
+            ctx_expire(E, ctx.v)
+            d = ctx.v.v[0]
+            if d is not None and d.closed:
+                # the dial context is already done: DialContext fails at once, whatever the network would do
+                E.call_value(E.dial_hook, [])  # the attempt is still counted by the harness
+                return (None, Iface(OPQ, OpaqueErr('context deadline exceeded')))
         return E.call_value(E.dial_hook, [])
     I['(*net.Dialer).DialContext'] = dial_context
 
